@@ -146,7 +146,7 @@ EXTRA = {
  "C01": " Third session: $$.Execution.Input and $$ selections read by later states, and generated two-level fan-out machines (Parallel/Map roots, nested Parallel/Map, MaxConcurrency, Catch at three places, one failing leaf) compared with the reference interpreter under the canonical schedule.",
  "C02": " After quiescence the engine's periodic time-out back-stop is invoked long after the time-out and must find nothing to do; scenarios added for execution time-outs, three-level nesting, queue starts without message ids, the back-stop meeting an already ended execution.",
  "C03": " A further monitor requires that no timer of an ended execution stays armed (the uncancellable retry-delay timer is a recorded known finding); scenarios added for nested fan-out states entered after termination, empty Maps ending a Branch, ItemSelector failures.",
- "C04": " Added: a retried Task around the crash, Catch/Choice/Wait chain, the same crash points with Redis-backed records that survive the crash, and the redelivered flag through the REAL blocking and asyncio transports (fake pika) down to TaskDispatcher.execute_task.",
+ "C04": " Added: a retried Task around the crash, Catch/Choice/Wait chain, the same crash points with Redis-backed records that survive the crash, and the redelivered flag through the REAL blocking and asyncio transports (fake pika) down to TaskDispatcher.execute_task; a parent blocked on a synchronous child execution across the crash (in-memory and Redis-backed records).",
  "C05": " One-step kernels run the fan-out site and the join's batch window of a Map on a symbolic-length list (<= 48 / 96) and symbolic MaxConcurrency; generated two-level machines, a fan-out state entered twice in a loop, Map in Map with MaxConcurrency, falsy outputs (null is a recorded known finding).",
  "C06": " Added: generated two-level machines with one failing leaf and Catchers at the nested state / root / leaf (first six scheduling decisions free in the quick tier), caught nested failure followed by an outer failure, three-level nesting, retried states sitting out their delay when a sibling fails.",
  "C07": " Added whole runs: Map retry budget across MaxConcurrency batches, Catcher ResultPath on fan-out states, ItemSelector and join (ResultSelector) failures retried/caught.",
